@@ -256,7 +256,7 @@ public:
       : padded_stride(padded_stride_type::init_padding(other_mapping, std::integral_constant<size_t, padded_stride_idx>{})),
         exts(other_mapping.extents())
   {
-    static_assert((_OtherExtents::rank() > 1) || (static_padding_stride != dynamic_extent) || (_OtherExtents::static_extent(extent_to_pad_idx) != dynamic_extent)
+    static_assert((_OtherExtents::rank() <= 1) || (static_padding_stride == dynamic_extent) || (_OtherExtents::static_extent(extent_to_pad_idx) == dynamic_extent)
                   || (static_padding_stride == _OtherExtents::static_extent(extent_to_pad_idx)));
   }
 
@@ -586,7 +586,7 @@ public:
       : padded_stride(padded_stride_type::init_padding(other_mapping, std::integral_constant<size_t, padded_stride_idx>{})),
         exts(other_mapping.extents())
   {
-    static_assert((_OtherExtents::rank() > 1) || (padded_stride_type::static_value() != dynamic_extent) || (_OtherExtents::static_extent(extent_to_pad_idx) != dynamic_extent)
+    static_assert((_OtherExtents::rank() <= 1) || (padded_stride_type::static_value() == dynamic_extent) || (_OtherExtents::static_extent(extent_to_pad_idx) == dynamic_extent)
                   || (padded_stride_type::static_value() == _OtherExtents::static_extent(extent_to_pad_idx)));
   }
 
